@@ -30,13 +30,25 @@ fn lifecycle_attr(l: Life) -> &'static str {
     }
 }
 
+/// How the type is written in a signature (types that hold a reference carry a lifetime).
+fn ty_in_sig(spec: &AppSpec, ty: usize) -> String {
+    if spec.types[ty].view_of.is_some() { format!("T{ty}<'_>") } else { format!("T{ty}") }
+}
+
+/// `src`: the input (type index) that the constructed value keeps a reference to: it is taken as `&'a T`.
 fn params(k: usize, spec: &AppSpec, inputs: &[(usize, Mode)], comp: &str, out: &mut String, body: &mut String) {
+    params_src(k, spec, inputs, None, comp, out, body)
+}
+
+fn params_src(k: usize, spec: &AppSpec, inputs: &[(usize, Mode)], src: Option<usize>, comp: &str, out: &mut String, body: &mut String) {
     for (n, (ty, mode)) in inputs.iter().enumerate() {
         let t = &spec.types[*ty];
+        let tn = ty_in_sig(spec, *ty);
+        let lt = if src == Some(*ty) { "'a " } else { "" };
         let (sig, m) = match mode {
-            Mode::Ref => (format!("a{n}: &T{ty}"), "ref"),
-            Mode::Move => (format!("a{n}: T{ty}"), "move"),
-            Mode::Mut => (format!("a{n}: &mut T{ty}"), "mut"),
+            Mode::Ref => (format!("a{n}: &{lt}{tn}"), "ref"),
+            Mode::Move => (format!("a{n}: {tn}"), "move"),
+            Mode::Mut => (format!("a{n}: &{lt}mut {tn}"), "mut"),
         };
         let _ = write!(out, "{sig}, ");
         let f = if t.is_copy { "recv_c" } else { "recv" };
@@ -65,10 +77,19 @@ pub fn emit_module(k: usize, spec: &AppSpec) -> String {
             let _ = writeln!(s, "#[derive(Debug, Clone, Copy)]\npub struct T{i} {{ pub tag: crate::rt::CTag }}");
         } else {
             let extra = if t.send_sync { "" } else { ", pub _ns: std::marker::PhantomData<std::rc::Rc<()>>" };
-            let _ = writeln!(s, "#[derive(Debug)]\npub struct T{i} {{ pub tag: crate::rt::Tag{extra} }}");
-            if t.is_clone {
-                let init = if t.send_sync { "" } else { ", _ns: std::marker::PhantomData" };
-                let _ = writeln!(s, "impl Clone for T{i} {{ fn clone(&self) -> Self {{ T{i} {{ tag: self.tag.cloned(){init} }} }} }}");
+            if let Some(j) = t.view_of {
+                // holds a reference to the value its constructor borrowed
+                let _ = writeln!(s, "#[derive(Debug)]\npub struct T{i}<'a> {{ pub tag: crate::rt::Tag, pub src: &'a T{j}{extra} }}");
+                if t.is_clone {
+                    let init = if t.send_sync { "" } else { ", _ns: std::marker::PhantomData" };
+                    let _ = writeln!(s, "impl<'a> Clone for T{i}<'a> {{ fn clone(&self) -> Self {{ T{i} {{ tag: self.tag.cloned(), src: self.src{init} }} }} }}");
+                }
+            } else {
+                let _ = writeln!(s, "#[derive(Debug)]\npub struct T{i} {{ pub tag: crate::rt::Tag{extra} }}");
+                if t.is_clone {
+                    let init = if t.send_sync { "" } else { ", _ns: std::marker::PhantomData" };
+                    let _ = writeln!(s, "impl Clone for T{i} {{ fn clone(&self) -> Self {{ T{i} {{ tag: self.tag.cloned(){init} }} }} }}");
+                }
             }
         }
         if t.prebuilt {
@@ -93,13 +114,18 @@ pub fn emit_module(k: usize, spec: &AppSpec) -> String {
             let flag = if t.allow_unused { format!("{flag}, allow(unused)") } else { flag };
             let mut sig = String::new();
             let mut body = String::new();
-            params(k, spec, &t.inputs, &cn, &mut sig, &mut body);
+            params_src(k, spec, &t.inputs, t.view_of, &cn, &mut sig, &mut body);
             let asy = if t.is_async { "async " } else { "" };
+            let (lt_decl, lt_use) = if t.view_of.is_some() { ("<'a>", "<'a>") } else { ("", "") };
             let ret = match t.fallible_of(v) {
-                Some(e) => format!("Result<T{i}, E{e}>"),
-                None => format!("T{i}"),
+                Some(e) => format!("Result<T{i}{lt_use}, E{e}>"),
+                None => format!("T{i}{lt_use}"),
             };
-            let make = if t.is_copy {
+            let make = if let Some(j) = t.view_of {
+                let pos = t.inputs.iter().position(|(x, _)| *x == j).unwrap_or(0);
+                let ns = if t.send_sync { "" } else { ", _ns: std::marker::PhantomData" };
+                format!("T{i} {{ tag: crate::rt::Tag::fresh(\"{tn}\", \"{cn}\"), src: a{pos}{ns} }}")
+            } else if t.is_copy {
                 format!("T{i} {{ tag: crate::rt::CTag::fresh(\"{tn}\", \"{cn}\") }}")
             } else if t.send_sync {
                 format!("T{i} {{ tag: crate::rt::Tag::fresh(\"{tn}\", \"{cn}\") }}")
@@ -114,7 +140,7 @@ pub fn emit_module(k: usize, spec: &AppSpec) -> String {
             }
             let fn_name = if in_module { "build".to_string() } else { format!("c{i}_{v}") };
             let _ = writeln!(s, "#[pavex::{}(id = \"M{k}_C{i}_{v}\"{flag})]", lifecycle_attr(t.attr_life.unwrap_or(t.life)));
-            let _ = writeln!(s, "pub {asy}fn {fn_name}({sig}) -> {ret} {{");
+            let _ = writeln!(s, "pub {asy}fn {fn_name}{lt_decl}({sig}) -> {ret} {{");
             let _ = writeln!(s, "    crate::rt::enter(\"{cn}\");");
             s.push_str(&body);
             if let Some(e) = t.fallible_of(v) {
@@ -168,7 +194,7 @@ pub fn emit_module(k: usize, spec: &AppSpec) -> String {
             sig.push_str("gp: &GP<T0>, ");
         }
         for (n, (kind, inner)) in c.gens.iter().enumerate() {
-            let _ = write!(sig, "g{n}: &G{}<T{inner}>, ", ["S", "R", "T"][*kind as usize % 3]);
+            let _ = write!(sig, "g{n}: &G{}<{}>, ", ["S", "R", "T"][*kind as usize % 3], ty_in_sig(spec, *inner));
         }
         let asy = if c.is_async { "async " } else { "" };
         match &c.kind {
